@@ -52,10 +52,17 @@ def tdm_script(rng, with_params=False, with_loop=False):
     if rng.random() < 0.6:
         lines.append("float alpha = %s" % elem(rng, "float"))
         others.append("alpha")
+    if with_params and rng.random() < 0.5:
+        # an ordinary array whose name is also the name of a template parameter used elsewhere: still passed by value
+        nm = rng.choice(["a", "phi", "p"])
+        lines.append("float array %s =\n    %s" % (nm, ", ".join(elem(rng, "float") for _ in range(rng.randint(1, 3)))))
+        others.append(nm)
+        pending = ["Rgate({%s}) | 0" % nm, "Zgate(%s, 0.5) | 1" % nm, "MeasureHomodyne(phi=%s) | 0" % nm]
     if rng.random() < 0.4:
         lines.append("int array B =\n    1, 2\n    3, 4")
         others.append("B")
     lines.append("")
+    lines += locals().get("pending", [])
     nst = rng.randint(1, 5)
     for _ in range(nst):
         args = []
